@@ -60,6 +60,8 @@ CALLEES = {
     "sub_r": (False, ["in", "in"]),
     "psub_in": (True, ["in", "in"]),
     "psub_out": (True, ["in", "out"]),
+    # not defined anywhere (external, unresolved RoutineSymbol, is_pure unknown): may do anything with its arguments
+    "ext_sub": (False, ["inout", "inout"]),
 }
 CALLEE_TEXT = """
   subroutine sub_io(x, y)
@@ -155,10 +157,10 @@ class XGen(fortgen.Gen):
 
     def while_(self, env, depth):
         r = self.r
-        k = r.choice([0, 1, 2, 3])
+        k = r.choice([("lit", 0), ("lit", 1), ("lit", 2), ("lit", 3), ("var", "n"), ("var", "n")])
         body = self.block(env, depth + 1, False, r.randint(1, 2))
         body.append(("assign", "w", [], ("bin", "Add", ("var", "w"), ("lit", 1))))
-        return ("while", ("bin", "Lt", ("var", "w"), ("lit", k)), body)
+        return ("while", ("bin", "Lt", ("var", "w"), k), body)
 
     def stmt(self, env, depth, in_loop):
         r = self.r
@@ -593,10 +595,12 @@ def targeted():
                 ("do", "j", L(1), L(3), L(1), [("if", B("Eq", V("j"), L(2)), [("cycle",)], []), ("assign", "b", [V("j")], V("j"))])])
     out.append([("while", B("Lt", V("w"), L(2)), [("assign", "c", [B("Add", V("w"), L(1))], V("t")),
                                                  ("assign", "w", [], B("Add", V("w"), L(1)))])])
+    out.append([("while", B("Lt", V("w"), V("n")), [("assign", "w", [], B("Add", V("w"), L(1)))])])        # n only in the condition
     out.append([("call", "user", "sub_io", ["in", "out"], [I("a", V("i")), I("b", B("Add", V("j"), L(1)))], [None, None])])
     out.append([("call", "user", "sub_io", ["in", "out"], [B("Add", V("n"), L(1)), V("s")], [None, None])])
     out.append([("call", "user", "sub3", ["in", "inout", "out"], [L(2), I("d", V("i"), V("j")), V("t")], [None] * 3)])
     out.append([("call", "user", "sub_x", ["inout"], [V("m")], [None])])
+    out.append([("call", "user", "ext_sub", ["inout", "inout"], [I("c", V("k")), V("t")], [None, None])])   # purity unknown
     out.append([("do", "i", L(1), L(2), L(1), [("call", "user", "sub_io", ["in", "out"], [V("i"), I("a", V("i"))], [None, None])])])
     out.append([("call", "pure", "psub_in", ["in", "in"], [V("s"), I("a", V("n"))], [None, None])])
     out.append([("call", "pure", "psub_out", ["in", "out"], [I("a", V("i")), I("b", B("Add", V("j"), L(1)))], [None, None])])   # finding
@@ -615,6 +619,57 @@ def targeted():
     out.append([("do", "i", L(1), L(2), L(1), [("print", [I("a", V("i"))]),
                                                ("call", "alloc", "ALLOCATE", ["out", "out"], [I("al", V("i")), V("t")], [None, "stat"])])])
     out.append([("return",)])
+    return out
+
+
+# statements of language-level PSyIR outside MiniFortran: (Fortran statement, variables/components it reads,
+# those it modifies) written by hand from the Fortran semantics; only the property itself is evaluated on them
+WIDER_DECLS = """    integer :: i, j, n, s, t
+    integer, dimension(6) :: a, b, c
+    integer, dimension(4, 4) :: d
+    type(tt) :: q, r
+    type(tt), dimension(3) :: qs
+"""
+WIDER = [
+    ("s = sum(a)", {"a"}, {"s"}),
+    ("s = dot_product(a, b) + maxval(c)", {"a", "b", "c"}, {"s"}),
+    ("s = product(a(1:n)) + size(b, 1)", {"a", "n"}, {"s"}),
+    ("t = minval(b, 1) + count(c > i)", {"b", "c", "i"}, {"t"}),
+    ("a(:) = b(:) + n", {"b", "n"}, {"a"}),
+    ("a(2:n) = 0", {"n"}, {"a"}),
+    ("d(i, :) = a(1:4) * c(j)", {"i", "a", "c", "j"}, {"d"}),
+    ("d(:, j) = matmul(d, b(1:4))", {"d", "b", "j"}, {"d"}),
+    ("q%f = r%arr(i) + 1", {"r%arr", "i"}, {"q%f"}),
+    ("q%arr(j) = q%f * n", {"q%f", "j", "n"}, {"q%arr"}),
+    ("qs(i)%f = qs(j)%arr(n)", {"qs%arr", "i", "j", "n"}, {"qs%f"}),
+    ("r%arr(q%f) = s", {"q%f", "s"}, {"r%arr"}),
+    ("s = abs(t) + max(a(i), b(j), n) + mod(c(1), 2) + sign(i, j)", {"t", "a", "i", "b", "j", "n", "c"}, {"s"}),
+    ("if (s > sum(c)) t = a(n)", {"s", "c", "a", "n"}, {"t"}),
+    ("do i = lbound(a, 1), ubound(b, n), j\n      c(i) = i\n    end do", {"n", "j", "i"}, {"i", "c"}),
+]
+
+
+def wider_shapes(reader):
+    """-> list of (statement text, report or status, missing set)"""
+    from psyclone.psyir.nodes import Routine
+    txt = ("module c11w\n  type :: tt\n    integer :: f\n    integer, dimension(5) :: arr\n  end type tt\ncontains\n"
+           "  subroutine t()\n" + WIDER_DECLS + "".join("    %s\n" % w[0] for w in WIDER) + "  end subroutine t\nend module c11w\n")
+    rt = [r for r in reader.psyir_from_source(txt).walk(Routine) if r.name == "t"][0]
+    if len(rt.children) != len(WIDER):
+        raise RuntimeError("wider shapes: %d statements, %d nodes" % (len(WIDER), len(rt.children)))
+    out = []
+    from psyclone.psyir.nodes import CodeBlock
+    for (st, rd, wr), n in zip(WIDER, rt.children):
+        r = impl_report(n)
+        m = missing(r[1], rd, wr) if r[0] == "ok" else set()
+        key = None
+        if m:
+            # every unreported variable occurs inside an expression-level CodeBlock of the statement?
+            cbtxt = " ".join(str(a) for cb in n.walk(CodeBlock) for a in cb.get_ast_nodes).lower()
+            import re
+            if cbtxt and all(re.search(r"\b%s\b" % re.escape(v.split("%")[0]), cbtxt) and kind == "read" for v, kind in m):
+                key = "codeblock/accesses-not-reported:EXPRESSION"
+        out.append((st, r, m, txt, key))
     return out
 
 
@@ -661,7 +716,7 @@ def run(ctx):
             vals[("w", ())] = 0
             stores.append((vals, bnds))
         progs.append((t, g.decls() + EXTRA_DECLS, stores, "targeted"))
-    for _ in range(ctx.pick(110, 1400)):
+    for _ in range(ctx.pick(80, 1000)):
         g = XGen(rng, max_depth=rng.choice([1, 2, 2, 3]))
         g.p_ext = rng.choice([0.0, 0.15, 0.3, 0.45])
         p = fix_adjacent(g.program(rng.randint(1, 5)))
@@ -793,6 +848,17 @@ def run(ctx):
                         "interp": results})
 
     ctx.log("implementation reports + interpreter done")
+    # ---- wider PSyIR shapes (reductions, array sections, structure members): the property only
+    for st, r, m, wtxt, wkey in wider_shapes(reader):
+        ctx.hist("wider_shapes", r[0])
+        ctx.count(("wider", st, sorted(r[1].items()) if r[0] == "ok" else r[1]), r[0] == "ok")
+        if r[0] == "error":
+            prop_fail.append((None, {"program": wtxt, "statement": st, "implementation_raised": r[1]}))
+        elif m:
+            if wkey:
+                gap_seen[wkey] = gap_seen.get(wkey, 0) + 1
+            prop_fail.append((wkey, {"program": wtxt, "statement": st, "not_reported": sorted(m), "reported": r[1],
+                                     "why": "hand-specified read/write set of the statement is not covered by the report"}))
     # ---- refused shapes
     for t in REFUSED_SHAPES:
         g = XGen(ctx.rng("tg"))
@@ -819,10 +885,15 @@ def run(ctx):
 
     # ---- model vs implementation, interpreter vs Coq, refusal table: one sharded evaluation
     allc = ["(AObs %s)" % c for c in coq_cases] + ["(AXv %s)" % c for c in xv_cases] + okshape
-    order = list(range(len(allc)))
-    ctx.rng("shuffle").shuffle(order)                  # spread the expensive (AXv) cases over the shards
-    bad = set(order[i] for i in ctx.coq_eval_failing(HEADER, "c11_any", "c11_any_check", [allc[i] for i in order],
-                                                     shard=ctx.pick(160, 400)))
+    uniq = {}                                          # identical terms (EXIT, RETURN, repeated shapes) are evaluated once
+    for i, c in enumerate(allc):
+        uniq.setdefault(c, []).append(i)
+    terms = sorted(uniq)
+    ctx.rng("shuffle").shuffle(terms)                  # spread the expensive (AXv) cases over the shards
+    bad = set()
+    for j in ctx.coq_eval_failing(HEADER, "c11_any", "c11_any_check", terms, shard=400):
+        bad.update(uniq[terms[j]])
+    ctx.notes["distinct_coq_terms"] = len(terms)
     n1, n2 = len(coq_cases), len(coq_cases) + len(xv_cases)
     failing = sorted(i for i in bad if i < n1)
     xv_bad = sorted(i - n1 for i in bad if n1 <= i < n2)
